@@ -282,7 +282,7 @@ func init() {
 func init() {
 	props["C09"] = &propSpec{
 		Level:       "translation_validation",
-		Rule:        "programs = files validated. Forward: every file written by the workload (Persist of seeded batches in all chunk-mode classes incl. tall batches with term cardinalities 1023..2049, Merge of two segments with deletions, Merge of that output) is decoded by zapdec, a reader written from the documented v16 layout that imports vellum/roaring/snappy but not zapx (footer + CRC, sections index, field records, dictionary FST, single-hit vs general values, chunked freq/norm and location streams with the documented chunk-size rule and full consumption of every chunk, stored blocks, doc-value chunks, thesaurus blocks, vector envelope) and compared with the model. Backward: 38 frozen files written by the pinned commit 562467b (/verif/corpus, sha256-checked, never regenerated by a check; incl. cardinality exactly 1024 in modes 1025/1026, merged-of-merged, thesauri, 70 kB values) are opened by the current code and compared on the full query surface with the stored spec, and decoded by zapdec (decoder self-check). disagreements_checked = files where decoder/reader and model disagreed",
+		Rule:        "programs = files validated. Forward: every file written by the workload (the merge plans of C05 in all plan classes; Persist of seeded batches in all chunk-mode classes incl. tall batches with term cardinalities 1023..2049, Merge of two segments with deletions, Merge of that output) is decoded by zapdec, a reader written from the documented v16 layout that imports vellum/roaring/snappy but not zapx (footer + CRC, sections index, field records, dictionary FST, single-hit vs general values, chunked freq/norm and location streams with the documented chunk-size rule and full consumption of every chunk, stored blocks, doc-value chunks, thesaurus blocks, vector envelope) and compared with the model. Backward: 38 frozen files written by the pinned commit 562467b (/verif/corpus, sha256-checked, never regenerated by a check; incl. cardinality exactly 1024 in modes 1025/1026, merged-of-merged, thesauri, 70 kB values) are opened by the current code and compared on the full query surface with the stored spec, and decoded by zapdec (decoder self-check). disagreements_checked = files where decoder/reader and model disagreed",
 		Assumptions: append([]string{"doc-value chunk size is not recorded in a file: the corpus uses the default 1024", "vector index blobs are the engine double's format; only the zapx-owned envelope is claimed", "frozen merged files avoid the inputs the pinned release itself mishandles (empty left-hand term in merged thesauri, nothing-survives merges)"}, commonAssumptions...),
 		Runs: func(tier string) []runSpec {
 			return []runSpec{
